@@ -383,6 +383,67 @@ def check_zero_read(eng, run, rule="C08.eofbio"):
     run.floor(f"{rule} ciphertext readers", n, 1)
 
 
+class WriteThenRemove(RuleAnalysis):
+    """inside the write-all loop: fact 'no' | 'yes' - has ssl_object.write() accepted the head chunk in this iteration?"""
+    tokens = ("ssl.SSLWantReadError",)
+
+    def __init__(self, engine, backlog):
+        super().__init__(engine)
+        self.backlog = backlog
+        self.viol = []
+        self.removals = 0
+
+    def initial(self, fn):
+        return ["no"]
+
+    def may_raise(self, node, fact):
+        return list(self.tokens) if isinstance(node, ast.Call) and _cname(node) == "write" else []
+
+    def transfer(self, node, fact):
+        if isinstance(node, TestAtom) and dotted(node.test) == self.backlog:
+            return ["no"]  # a new iteration
+        if isinstance(node, ast.Call) and _cname(node) == "write":
+            return ["yes"]
+        removal = (isinstance(node, ast.Delete) and any(isinstance(t, ast.Subscript) and dotted(t.value) == self.backlog for t in node.targets)) or \
+                  (isinstance(node, ast.Call) and _cname(node) in ("popleft", "pop") and isinstance(node.func, ast.Attribute) and dotted(node.func.value) == self.backlog)
+        if removal:
+            self.removals += 1
+            if fact == "no":
+                self.viol.append(node)
+        return [fact]
+
+
+def check_remove_after_write(eng, run, rule="C08.drain"):
+    """a plaintext chunk leaves the backlog only after the SSL object has accepted it: write() raises WANT_READ / WANT_WRITE when the
+    TLS engine needs I/O first, and the retry re-enters the helper with the backlog as it is - a chunk removed beforehand is gone"""
+    tls = eng.db.cls(TLS)
+    n = 0
+    for fn in tls.methods.values():
+        ps = [a.arg for a in fn.params()]
+        for w in [x for x in own_nodes(fn.node) if isinstance(x, ast.While)]:
+            if isinstance(w.test, ast.Name) and w.test.id in ps and any(isinstance(c, ast.Call) and _cname(c) == "write" for c in ast.walk(w)):
+                n += 1
+                an = WriteThenRemove(eng, w.test.id)
+                Interp(an, fn).run()
+                for node in an.viol[:1]:
+                    run.finding(rule, fn, _stmt_at(fn, node.lineno), f"`{ast.unparse(node)[:50]}` takes the chunk out of the backlog before `write()` has accepted it: when the write raises "
+                                "SSLWantReadError / SSLWantWriteError the retry finds the backlog without it and send_all() succeeds although the chunk was never sent")
+                run.ob(rule, f"{fn.short}:chunk-removed-only-after-the-write", not an.viol and an.removals > 0, removals=an.removals)
+    run.floor(f"{rule} write-all loops", n, 1)
+
+
+def check_underlying(eng, run):
+    """the wrapped asyncio transport the TLS layer reads ciphertext from (always through recv_into with its own buffer) and writes
+    records to: the lent buffer is withdrawn on every exit / by the delivery callback (rules of C10), and a record handed to
+    transport.write() is followed - not preceded - by the awaited drain (rule of C20): a record taken out of the write BIO and then
+    dropped by a cancellation desynchronises the TLS stream"""
+    from rules import c10, c20
+    from sa.report import RuleAlias
+    c10.check_lend(eng, run, rule="C08.recv", cancel_arm=False)
+    c10.check_withdraw(eng, run, rule="C08.recv")
+    c20.check_drain(eng, RuleAlias(run, "C08.flush"))
+
+
 def check_locks(eng, run):
     tls = eng.db.cls(TLS)
     fn = tls.methods["_retry_ssl_method"]
@@ -427,6 +488,8 @@ def run(eng, run):
     check_flush(eng, run)
     check_drain(eng, run)
     check_zero_read(eng, run)
+    check_remove_after_write(eng, run)
+    check_underlying(eng, run)
     check_locks(eng, run)
 
 
@@ -507,4 +570,16 @@ MUTANTS += [
 ]
 BENIGN += [
     Variant("zero-byte-read-test-ge-1", _IDRR, lambda fn: _count_test(fn, ast.GtE(), 1), why="same test written as >= 1"),
+]
+
+
+
+def _pop_before_write(fn):
+    w = next(n for n in ast.walk(fn) if isinstance(n, ast.While))
+    w.body = ast.parse("data = write_backlog.popleft()\nif data.itemsize != 1:\n    data = data.cast('B')\nsent = ssl_object.write(data)\nif sent < len(data):\n    write_backlog.appendleft(data[sent:])").body
+
+
+MUTANTS += [
+    Variant("write-all-pops-before-the-write", _WA, _pop_before_write, "C08.drain",
+            why="SSLObject.write() raises WANT_READ: the popped chunk is lost, send_all() succeeds without sending it (seed C08-7)"),
 ]
